@@ -61,10 +61,10 @@ const ITER_EACH: NativeMetaBuilder = NativeMetaBuilder::method("each", Arity::Fi
   .with_stack();
 
 const ITER_ZIP: NativeMetaBuilder = NativeMetaBuilder::method("zip", Arity::Variadic(0))
-  .with_params(&[ParameterBuilder::new("iterators", ParameterKind::Object)]);
+  .with_params(&[ParameterBuilder::new("iterators", ParameterKind::Enumerator)]);
 
 const ITER_CHAIN: NativeMetaBuilder = NativeMetaBuilder::method("chain", Arity::Variadic(0))
-  .with_params(&[ParameterBuilder::new("iterators", ParameterKind::Object)]);
+  .with_params(&[ParameterBuilder::new("iterators", ParameterKind::Enumerator)]);
 
 const ITER_ALL: NativeMetaBuilder = NativeMetaBuilder::method("all", Arity::Fixed(1))
   .with_params(&[ParameterBuilder::new("fun", ParameterKind::Callable)])
